@@ -348,7 +348,11 @@ class HTTPRequestParser:
             if not ONLY_DIGIT_RE.match(cl.encode("latin-1")):
                 raise ParsingError("Content-Length is invalid")
 
-            cl = int(cl)
+            try:
+                cl = int(cl)
+            except ValueError:
+                # more digits than int() is willing to convert
+                raise ParsingError("Content-Length is invalid")
             self.content_length = cl
 
             if cl > 0:
